@@ -49,7 +49,7 @@ impl SrcProp {
             Which::C01 => &[Focus::Any, Focus::Code, Focus::Comments, Focus::Math, Focus::Prose, Focus::Breaks, Focus::Literals],
             Which::C03 => &[Focus::Comments, Focus::Breaks, Focus::Any, Focus::Code, Focus::Imports],
             Which::C04 => &[Focus::Comments, Focus::Code, Focus::Any, Focus::Math, Focus::Breaks],
-            Which::C06 => &[Focus::Comments, Focus::Comments, Focus::CommentsOff],
+            Which::C06 => &[Focus::Comments, Focus::Comments, Focus::CommentsOff, Focus::Imports],
             Which::C07 => &[Focus::Code, Focus::Any, Focus::Math, Focus::Breaks],
             Which::C08 => &[Focus::Prose, Focus::Any],
             Which::C09 => &[Focus::Math],
@@ -554,7 +554,23 @@ impl Prop for SrcProp {
                 }
             }
             Which::C06 => match oracle::comments::check(&root, &oroot) {
-                Ok(n) => Verdict::Pass { nontrivial: n >= 1 && changed },
+                Ok(n) => {
+                    // the main comparison runs with reordering off (item order is C19's business); a text with
+                    // imports and comments is formatted once more with reordering on, where the comments
+                    // themselves must still come out complete and in order (seeded change C06-7: comments inside import items change places)
+                    if n >= 1 && c.src.contains("import") {
+                        if let Fmt::Ok(on) = env.f.format(&c.src, &Cfg { reorder: true, ..c.cfg.clone() }) {
+                            let onroot = syn::parse(&on);
+                            if !onroot.erroneous() {
+                                st.label("comments-and-imports:also-checked-with-reorder-on");
+                                if let Err((sig, d)) = oracle::comments::check_order_only(&root, &onroot) {
+                                    return Verdict::fail(sig, d);
+                                }
+                            }
+                        }
+                    }
+                    Verdict::Pass { nontrivial: n >= 1 && changed }
+                }
                 Err((sig, d)) => Verdict::fail(sig, d),
             },
             Which::C08 => match oracle::prose::check_with_text(&c.src, &root, &out, &oroot) {
